@@ -165,6 +165,9 @@ type Call struct {
 type Case struct {
 	Spec  *Spec  `json:"spec"`
 	Calls []Call `json:"calls"`
+	// Warmup: the sampler has already been asked this many times (same level, a clock standing still at
+	// the first call's reading) before the history starts: a long-lived sampler, its counters far from zero
+	Warmup int `json:"warmup_calls,omitempty"`
 }
 
 var clock int64
@@ -197,6 +200,15 @@ func runBare(c *Case) (string, bool) {
 	m := newModel(c.Spec)
 	nestedSampler = real
 	defer func() { pendingNested, modelClockHook = nil, nil }()
+	if c.Warmup > 0 && len(c.Calls) > 0 {
+		clock = c.Calls[0].Now
+		for i := 0; i < c.Warmup; i++ {
+			got, want := real.Sample(zerolog.Level(c.Calls[0].Lvl)), m.sample(c.Calls[0].Lvl, clock)
+			if got != want {
+				return fmt.Sprintf("warm-up call %d (level %d, now %d): sampler returned %v, model %v", i, c.Calls[0].Lvl, clock, got, want), m.nontrivial()
+			}
+		}
+	}
 	for i, call := range c.Calls {
 		clock = call.Now
 		pendingNested, nestedRan = call.Nested, false
@@ -259,14 +271,14 @@ func TestExhaustiveBurst(t *testing.T) {
 				var recur func(d int)
 				recur = func(d int) {
 					if d > 0 {
-						c := &Case{spec, calls[:d]}
+						c := &Case{Spec: spec, Calls: calls[:d]}
 						msg, nontriv := runBare(c)
 						n++
 						if nontriv {
 							nt++
 						}
 						if msg != "" {
-							cc := &Case{spec, append([]Call{}, calls[:d]...)}
+							cc := &Case{Spec: spec, Calls: append([]Call{}, calls[:d]...)}
 							fail(t, "exhaustive", cc, msg)
 						}
 					}
@@ -284,7 +296,25 @@ func TestExhaustiveBurst(t *testing.T) {
 	}
 	rec.Bulk(n, nt, "burst-exhaustive")
 	rec.Exhaustive(fmt.Sprintf("all call histories up to length %d over a 7-tick clock alphabet x Burst 0..3 x Period 0..3 steps x 6 NextSamplers (shard %d/%d)", maxLen, sh, nsh))
-	rec.Sample(Case{&Spec{Kind: "burst", Burst: 2, Period: 20, Next: &Spec{Kind: "basic", N: 2}}, []Call{{Lvl: 1, Now: 0}, {Lvl: 1, Now: 5}, {Lvl: 1, Now: 5}, {Lvl: 1, Now: 20}, {Lvl: 1, Now: 15}}})
+	rec.Sample(Case{Spec: &Spec{Kind: "burst", Burst: 2, Period: 20, Next: &Spec{Kind: "basic", N: 2}}, Calls: []Call{{Lvl: 1, Now: 0}, {Lvl: 1, Now: 5}, {Lvl: 1, Now: 5}, {Lvl: 1, Now: 20}, {Lvl: 1, Now: 15}}})
+}
+
+// TestLongLivedBasic: one BasicSampler instance asked 2^24 + 70 times: the every-Nth cadence holds all
+// the way (a counter that is folded, narrowed or reset somewhere along the way shifts it).
+func TestLongLivedBasic(t *testing.T) {
+	const calls = 1<<24 + 70
+	for _, N := range []uint32{2, 3, 7, 10} {
+		spec := &Spec{Kind: "basic", N: N}
+		real, m := build(spec), newModel(spec)
+		for i := 0; i < calls; i++ {
+			if got, want := real.Sample(zerolog.InfoLevel), m.sample(1, 0); got != want {
+				c := Case{Spec: spec, Calls: []Call{{Lvl: 1}}, Warmup: i}
+				fail(t, "longlived", c, fmt.Sprintf("BasicSampler{N:%d}: call %d on one long-lived instance returned %v, model %v", N, i+1, got, want))
+			}
+		}
+		rec.Bulk(calls, calls, "long-lived-basic")
+	}
+	rec.Exhaustive("one BasicSampler instance per N in {2,3,7,10}, 2^24+70 consecutive calls each")
 }
 
 func TestExhaustiveBasic(t *testing.T) {
@@ -304,7 +334,7 @@ func TestExhaustiveBasic(t *testing.T) {
 			}
 			n++
 			if admitted != want {
-				fail(t, "basic", Case{&Spec{Kind: "basic", N: N}, make([]Call, k)}, fmt.Sprintf("BasicSampler{N:%d}: %d of %d admitted, want ceil(k/N)=%d", N, admitted, k, want))
+				fail(t, "basic", Case{Spec: &Spec{Kind: "basic", N: N}, Calls: make([]Call, k)}, fmt.Sprintf("BasicSampler{N:%d}: %d of %d admitted, want ceil(k/N)=%d", N, admitted, k, want))
 			}
 		}
 	}
@@ -373,7 +403,11 @@ func TestRapidCompositions(t *testing.T) {
 		maxLen = 300
 	}
 	rapid.Check(t, func(rt *rapid.T) {
-		c := &Case{genSpec(rt, 2, "spec"), genCalls(rt, maxLen)}
+		c := &Case{Spec: genSpec(rt, 2, "spec"), Calls: genCalls(rt, maxLen)}
+		if rapid.IntRange(0, 19).Draw(rt, "warm") == 0 {
+			// counters of the widths a sampler might keep: just below and above 2^8 and 2^16 (2^24: TestLongLivedBasic)
+			c.Warmup = rapid.SampledFrom([]int{254, 257, 65534, 65537}).Draw(rt, "warmup")
+		}
 		msg, nt := runBare(c)
 		b, _ := json.Marshal(c)
 		rec.Case(b, nt, "composition:"+c.Spec.Kind)
